@@ -83,7 +83,7 @@ def replay_failed(scratch, r, prop, log=print):
                 continue
             seen.add(c.desc)
             try:
-                tr = cex.trace_for_property(gf, c.name, h.cls)
+                tr = cex.trace_for_property(gf, c.name, h.cls, unwind=cex.harness_unwind(h))
                 if tr is None:
                     r.nonrepro.append("no trace for %s" % c.name)
                     continue
